@@ -341,6 +341,21 @@ theorem trunc_fixed_greatest (t n : Int) (hn : 0 < n) :
     n * (t / n) ≤ t ∧ n ∣ n * (t / n) ∧ ∀ k, n ∣ k → k ≤ t → k ≤ n * (t / n) :=
   ⟨(floor_mul_greatest t n hn).1, (floor_mul_greatest t n hn).2.2.1, (floor_mul_greatest t n hn).2.2.2⟩
 
+/-- **truncation is idempotent and order preserving**: truncating the truncated instant to the same
+span changes nothing, an earlier instant never truncates to a later one, and the truncated instant
+lies less than one span before the instant -/
+theorem trunc_fixed_idem_mono (s t n : Int) (hn : 0 < n) :
+    n * ((n * (t / n)) / n) = n * (t / n) ∧
+    (s ≤ t → n * (s / n) ≤ n * (t / n)) ∧
+    t - n < n * (t / n) := by
+  refine ⟨?_, ?_, ?_⟩
+  · rw [Int.mul_ediv_cancel_left _ (Int.ne_of_gt hn)]
+  · intro hst
+    exact Int.mul_le_mul_of_nonneg_left (Int.ediv_le_ediv hn hst) (Int.le_of_lt hn)
+  · have h1 := Int.emod_lt_of_pos t hn
+    have h2 := Int.mul_ediv_add_emod t n
+    omega
+
 /-- When the span is a whole number of units the truncated value is exact: it denotes the
 instant `n·⌊t/n⌋` itself (at nanosecond precision provided that instant is an `i64`). -/
 theorem trunc_fixed_exact (u : TUnit) (x n : Int) (hx : x ≠ nat64) (hn : 0 < n)
